@@ -216,6 +216,7 @@ def main():
         k_result = kani_run.run_property(pid, P, tier, seed)
 
     undecided = []
+    proxy_failed = []   # (unit, failure): exact-expression contracts that failed; need a concrete input to count
     violations = []     # (unit, failure)
     known = []          # (kf, unit, failure)
     obligations = 0
@@ -280,6 +281,10 @@ def main():
         failed_clause_ids = set()
         kf_clause_ids = set()
         grown = grown_functions(u, g)
+        for fl in confirmed:
+            if fl.fn in getattr(unit, "PROXY_FUNCTIONS", ()) and not match_kf(fl, u, pid, kfs) and fl.fn not in grown:
+                for c in fl.clauses:
+                    failed_clause_ids.add(c[0])
         if grown:
             us["functions_with_new_unannotated_loops_or_closures"] = grown
         for fl in confirmed:
@@ -293,8 +298,11 @@ def main():
                 known.append((kf, unit.NAME, fl))
                 for c in fl.clauses:
                     kf_clause_ids.add(c[0])
-            else:
-                violations.append((unit.NAME, fl))
+            elif fl.fn in getattr(unit, "PROXY_FUNCTIONS", ()):
+                # the contract of this function pins an exact floating-point expression where the property itself is stated up
+                # to tolerance: an equivalent reformulation (a*b -> b*a, powi(2) -> x*x, another lerp form) fails it too.  Such a
+                # failure is a verdict only together with a concrete failing input from the bounded native family.
+                proxy_failed.append((unit.NAME, fl))
                 for c in fl.clauses:
                     failed_clause_ids.add(c[0])
         # obligations: named clauses carrying this property's tag in this unit
@@ -351,6 +359,16 @@ def main():
             s_bounded.append(dict(harness="native family %s (%s) seed %d" % (pid, "replay/py/c20_scenarios.py on the real oxmpl_py module" if pid == "C20" else "replay/src/spaces.rs", sd), bound=P["bounded_scenarios"], status="pass" if not fresh else "fail", reports=len(hits)))
             if fresh:
                 s_violations.append((sd, fresh))
+
+    if proxy_failed:
+        import replay
+        hits, note = replay.run_scenarios(pid, seed)
+        hits = [h for h in hits if not any(k.get("property") == pid and k.get("unit") == "S" and re.search(k["scenario_re"], h.get("what", "")) for k in kfs)]
+        for uname, fl in proxy_failed:
+            if hits:
+                violations.append((uname, fl))
+            else:
+                undecided.append("%s: the exact-expression contract of fn %s failed (%s) but the bounded native family finds no violation of %s within its tolerances: the change may be an equivalent reformulation (not counted as a verdict)" % (uname, fl.fn, describe(fl)[:300], pid))
 
     wall = time.time() - t0
     exit_code = 0
